@@ -665,6 +665,26 @@ def _make_basis_dir():
         raise
 
 
+def _save_basis(path, data):
+    """
+    Internal utility function.
+
+    Saves a basis-set array to the file **path** such that other processes
+    using the same directory never see a partially written file: the data are
+    written to a temporary file in the same directory, which is then moved in
+    place.
+    """
+    tmp = '{}.{}.tmp'.format(path, os.getpid())
+    try:
+        with open(tmp, 'wb') as f:
+            np.save(f, data)
+        getattr(os, 'replace', os.rename)(tmp, path)
+    except Exception:
+        if os.path.exists(tmp):
+            os.remove(tmp)
+        raise
+
+
 def default_basis_dir():
     r"""
     Gets full path to the system-dependent default directory for saving/loading
